@@ -50,8 +50,18 @@ func c11exec(j run.Job, a *run.Acc) {
 			}
 			return fmt.Sprintf("f%d", i)
 		}
+		// a fifth of the sets are made of File objects that were placed in another set (at other offsets) before:
+		// a document set rebuilt from the same File objects
+		var earlierSet *parsley.FileSet
+		if len(raws) > 0 && run.Hash(fmt.Sprint(raws))%5 == 0 {
+			earlierSet = parsley.NewFileSet(text.NewFile("earlier", []byte("seven b")))
+			a.Count("file sets made of File objects that were in another set before", 1)
+		}
 		for i, b := range raws {
 			f := text.NewFile(nameOf(i), b)
+			if earlierSet != nil {
+				earlierSet.AddFile(f)
+			}
 			files = append(files, f)
 			pf = append(pf, f)
 			if incremental {
@@ -213,7 +223,7 @@ func init() {
 		},
 		Exec: c11exec,
 		Finish: func(tier string, a *run.Acc, cov map[string]any) string {
-			cov["rule"] = "case = a file set of 0-6 files (empty files, LF, lone CR, CRLF, CR CR LF, multi-byte runes, no trailing newline), built with NewFileSet(files...) or AddFile. " +
+			cov["rule"] = "case = a file set of 0-6 files (empty files, LF, lone CR, CRLF, CR CR LF, multi-byte runes, no trailing newline), built with NewFileSet(files...) or AddFile, a fifth of them from File objects that were placed in another set before. " +
 				"Oracle: independent layout base_0=1, base_{i+1}=base_i+len_i+1 on the independently CRLF-normalised content, line/column by counting LFs. Every global position 0..last+3 is queried " +
 				"(name:line:col expected, 'unknown' for 0 and for everything past the last file's EOF position; every EOF position belongs to its file), all renderings of distinct (file, offset) must be distinct; " +
 				"File.Pos, File.Len, File.Position are checked directly for every offset. non-trivial = at least two files; distinct = distinct file contents"
